@@ -5,7 +5,7 @@ import itertools
 
 from hypothesis import strategies as st
 
-from vf import core, dump
+from vf import core, dump, streams
 from vf.enc import elf as W
 from vf.enc import dwarf as D
 from vf.choose import RndChooser
@@ -141,9 +141,10 @@ def _count(d):
 # the object under test + operations
 
 class Obj:
-    def __init__(self, data):
+    def __init__(self, data, minimal=False):
         from elftools.elf.elffile import ELFFile
-        self.ef = ELFFile(io.BytesIO(data))
+        # histories also run on a minimal read/seek/tell stream (seek() returns None); the fresh-object truth always comes from BytesIO
+        self.ef = ELFFile(streams.Minimal(data) if minimal else io.BytesIO(data))
         self.di = self.ef.get_dwarf_info() if self.ef.has_dwarf_info() else None
         self.gens = []          # suspended generators: [kind, arg, pos, iterator]
         self.kept = {}          # section objects a caller would keep around (their lazy caches are part of the history)
@@ -458,7 +459,12 @@ def gen_truth(fx, a, kind, arg):
 
 def run_history(ctx, fx, a, ops, case, o=None):
     """execute ops on one object, compare every result with the truth; -> (object, number of mismatches)"""
-    o = o or Obj(fx['data'])
+    if o is None:
+        import zlib
+        minimal = zlib.crc32(repr(ops).encode()) % 3 == 0
+        o = Obj(fx['data'], minimal)
+        if minimal:
+            ctx.count('history.on-minimal-stream')
     bad = 0
     prev = 'start'
     # A file with a unit the library cannot decode: a query that, on a fresh object, has to walk across that unit raises, while the same
@@ -732,7 +738,7 @@ def floors(ctx):
     if c['exhaustive.states'] < 50:
         out.append('exhaustive exploration reached only %d abstract states' % c['exhaustive.states'])
     out += ['suspended generator kind never advanced: ' + k for k in GEN_KINDS if c['gen.' + k] == 0]
-    for k in ('fixture.gen', 'fixture.corpus', 'fixture.badver', 'fixture.dupsig'):
+    for k in ('fixture.gen', 'fixture.corpus', 'fixture.badver', 'fixture.dupsig', 'history.on-minimal-stream'):
         if c[k] == 0:
             out.append('no history on ' + k)
     return out
